@@ -236,7 +236,7 @@ impl System for ASys {
                 let out = do_encap(&mut n.enc, &PDU_C, 0, 0x0800, L6Z, &mut b);
                 acc.outcome(&format!("send-zero:{}", out.class()));
                 if let Some(len) = out.len() {
-                    let (dout, mut rx2) = step_decap(&n.rx, &DefaultCrc {}, &TableMgr::none(), &b[..len]);
+                    let (dout, mut rx2) = step_decap(&n.rx, &DefaultCrc {}, &TableMgr::none(), &b[..(len).min(b.len())]);
                     reprovision(&mut rx2, &dout);
                     n.rx = rx2;
                 }
@@ -249,7 +249,7 @@ impl System for ASys {
                 acc.outcome(&format!("continue:{}", out.class()));
                 match &out {
                     EncOut::Completed(len) => {
-                        let (dout, mut rx2) = step_decap(&n.rx, &DefaultCrc {}, &TableMgr::none(), &b[..*len]);
+                        let (dout, mut rx2) = step_decap(&n.rx, &DefaultCrc {}, &TableMgr::none(), &b[..(*len).min(b.len())]);
                         acc.calls += 1;
                         acc.compared += 1;
                         reprovision(&mut rx2, &dout);
